@@ -16,6 +16,11 @@ import (
 
 const repoMod = "github.com/JunNishimura/Goit"
 
+// interpretedStd: standard-library packages whose pure functions may be executed from their own SSA when no intrinsic
+// model exists (so that a change to Goit that starts using e.g. strings.HasPrefix is still encoded).
+var interpretedStd = map[string]bool{"strings": true, "bytes": true, "strconv": true, "sort": true, "path": true, "path/filepath": true,
+	"errors": true, "unicode/utf8": true, "slices": true, "cmp": true, "math/bits": true, "internal/stringslite": true, "internal/bytealg": true, "internal/itoa": true}
+
 type Loaded struct {
 	prog    *ssa.Program
 	pkgs    map[string]*ssa.Package // by import path
@@ -86,13 +91,14 @@ func Load(repoDir, verDir string) (*Loaded, error) {
 	if len(errs) > 0 {
 		return nil, fmt.Errorf("load errors:\n%s", strings.Join(errs, "\n"))
 	}
-	prog, spkgs := ssautil.Packages(pkgs, ssa.InstantiateGenerics)
+	prog, _ := ssautil.AllPackages(pkgs, ssa.InstantiateGenerics)
 	ld := &Loaded{prog: prog, pkgs: map[string]*ssa.Package{}, repoDir: repoDir, verDir: verDir}
-	for _, sp := range spkgs {
-		if sp != nil {
+	for _, sp := range prog.AllPackages() {
+		path := sp.Pkg.Path()
+		if strings.HasPrefix(path, repoMod) || interpretedStd[path] {
 			sp.Build()
-			ld.pkgs[sp.Pkg.Path()] = sp
 		}
+		ld.pkgs[path] = sp
 	}
 	ld.gitHead = strings.TrimSpace(runOut(repoDir, "git", "rev-parse", "HEAD"))
 	diff := runOut(repoDir, "git", "diff", "HEAD")
